@@ -44,7 +44,7 @@ CHECKS = {
             "where the statement is silent (undrop on a shuffled feature, unshuffle on a dropped feature, shuffle of a dropped "
             "feature) either outcome is accepted and the reference follows the implementation",
         ],
-        "deadline": {"quick": 300, "thorough": 1500},
+        "deadline": {"quick": 600, "thorough": 2400},
         "stages": [
             {"name": "views", "harness": "c08_views", "args": ["--stage", "views"], "share": 0.55,
              "crash_is_violation": True,
